@@ -95,6 +95,7 @@ class Staircase(Laplace):
     @copy_docstring(Laplace.randomise)
     def randomise(self, value):
         self._check_all(value)
+        value = float(value)  # a numpy float32/float16 input would otherwise have the sum taken in its own type
 
         sign = -1 if self._rng.random() < 0.5 else 1
         geometric_rv = self._rng.geometric(1 - np.exp(- self.epsilon)) - 1
